@@ -59,6 +59,7 @@ def cfg_from_json(c):
     for k in NUM:
         out[k] = int(c[k])
     out["nb"] = [[list(r) for r in fr] for fr in c["nb"]]
+    out["wt"] = [[list(r) for r in fr] for fr in c["wt"]]
     return out
 
 
@@ -71,6 +72,8 @@ def cfg_equal(a, b):
             return k
     if a["nb"] != b["nb"]:
         return "nb"
+    if a["wt"] != b["wt"]:
+        return "wt"
     return None
 
 
@@ -176,6 +179,8 @@ def apply_word(cfg, word):
             c["frames"] = c["frames"][:, idx, :]
             c["field"] = c["field"][idx]
             c["nb"] = [[[pi[j - 1] for j in fr[idx[jn]]] for jn in range(n)] for fr in c["nb"]]
+            if c.get("wt") is not None:
+                c["wt"] = [[list(fr[idx[jn]]) for jn in range(n)] for fr in c["wt"]]
             act["pi"] = [pi[p - 1] for p in act["pi"]]
         elif kind == "swap":
             sig = list(range(1, K + 1))
@@ -252,15 +257,16 @@ def render(cfg):
     R.nn = cfg["nn"]
     R.a = cfg["an"] / cfg["ad"]
     R.nb = cfg["nb"]
+    R.wt = cfg.get("wt")            # given weights of the listed neighbours (None: no weighted evaluation)
     R.field = np.array(cfg["field"], dtype=float)
     R.vecs = np.array(cfg["vecs"], dtype=np.int64)
     return R
 
 
-def write_nb(path, nb):
+def write_nb(path, nb, header="id     cn     neighborlist"):
     with open(path, "w") as f:
         for fr in nb:
-            f.write("id     cn     neighborlist\n")
+            f.write(header + "\n")
             for i, row in enumerate(fr):
                 f.write(f"{i + 1} {len(row)} " + " ".join(str(j) for j in row) + "\n")
 
@@ -351,11 +357,19 @@ def ob_boo3(R, tmp):
     nf = os.path.join(tmp, "nb3.dat")
     write_nb(nf, R.nb)
     out = {}
+    wf = None
+    if R.wt is not None:
+        wf = os.path.join(tmp, "wt3.dat")
+        write_nb(wf, R.wt, header="id     cn     facearealist")
     for l, kind in R.boo3:
         with np.errstate(all="ignore"):
             b = boo_3d(R.snaps, l, nf, ppp=R.ppp, Nmax=30)
             out[f"q{l}"] = b.ql_Ql(coarse_graining=False)
             out[f"Q{l}"] = b.ql_Ql(coarse_graining=True)
+            if wf:
+                bw = boo_3d(R.snaps, l, nf, weightsfile=wf, ppp=R.ppp, Nmax=30)
+                out[f"qweighted{l}"] = bw.ql_Ql(coarse_graining=False)
+                out[f"Qweighted{l}"] = bw.ql_Ql(coarse_graining=True)
             if kind >= 1:
                 out[f"w{l}"], out[f"what{l}"] = b.w_W_cap(coarse_graining=False)
             if kind >= 2:
@@ -367,7 +381,13 @@ def ob_boo2(R, tmp):
     from PyMatterSim.static.boo import boo_2d
     nf = os.path.join(tmp, "nb2.dat")
     write_nb(nf, R.nb)
-    return {l: boo_2d(R.snaps, l, nf, ppp=R.ppp, Nmax=10).ParticlePhi for l in (4, 6, 3)}
+    out = {(l, ""): boo_2d(R.snaps, l, nf, ppp=R.ppp, Nmax=10).ParticlePhi for l in (4, 6, 3)}
+    if R.wt is not None:       # the given weights (weighted average of the bond phases)
+        wf = os.path.join(tmp, "wt2.dat")
+        write_nb(wf, R.wt, header="id     cn     edgelengthlist")
+        for l in (6, 3):
+            out[(l, "weighted ")] = boo_2d(R.snaps, l, nf, weightsfile=wf, ppp=R.ppp, Nmax=10).ParticlePhi
+    return out
 
 
 def ob_tetra(R, tmp):
@@ -687,12 +707,13 @@ def cmp_boo3(r0, r1, act, ctx, out):
 
 
 def cmp_boo2(r0, r1, act, ctx, out):
-    for l in r0:
-        _cmp_perparticle(f"boo2:|psi_{l}|", np.abs(r0[l]), np.abs(r1[l]), act, out, fragile=ctx["bondtie"])
+    for key in r0:
+        l, wd = key
+        _cmp_perparticle(f"boo2:{wd}|psi_{l}|", np.abs(r0[key]), np.abs(r1[key]), act, out, fragile=ctx["bondtie"])
         # psi itself: multiplied by (rho/|rho|)^l, after conjugation when the word contains a reflection
         ph = complex(ev(act["psi_phase"][l - 1])) if act.get("psi_phase") else 1.0 + 0j
-        exp = (np.conj(r0[l]) if act.get("reflects") else r0[l]) * ph
-        _cmp_perparticle(f"boo2:psi_{l}Covariant", exp, r1[l], act, out, fragile=ctx["bondtie"])
+        exp = (np.conj(r0[key]) if act.get("reflects") else r0[key]) * ph
+        _cmp_perparticle(f"boo2:{wd}psi_{l}Covariant", exp, r1[key], act, out, fragile=ctx["bondtie"])
 
 
 def cmp_tetra(r0, r1, act, ctx, out):
@@ -1106,7 +1127,7 @@ def load_traj(spec, tier):
         H = np.diag(np.diag(H))
     cfg = {"d": d, "S": TRAJ_S, "H": H * TRAJ_S, "org": lo * TRAJ_S, "ppp": ppp, "types": types, "frames": frames * TRAJ_S,
            "field": None, "vecs": None, "wn": spec["wn"], "rc": spec["rc"], "rn": spec["rn"], "nd": spec["nd"], "nn": spec["nn"],
-           "an": 3, "ad": 10, "nb": None, "R": None, "dia": None, "E": None, "ms": None}
+           "an": 3, "ad": 10, "nb": None, "wt": None, "R": None, "dia": None, "E": None, "ms": None}
     diag = bool(np.allclose(H, np.diag(np.diag(H))))
     desc = {"id": spec["id"], "d": d, "N": int(n), "K": K, "diag": 1 if diag else 0, "ppp": [int(x) for x in ppp],
             "nfr": len(ss), "L": [int(round(H[k, k] * TRAJ_S)) for k in range(d)],
